@@ -54,6 +54,8 @@ def make_job(jid, kind, prog, options, params, events=False):
         j["events"] = True
     if prog["kind"] == "src":
         j["files"] = {"main.go": prog["text"]}
+        if prog.get("lib"):
+            j["files"]["lib/lib.go"] = prog["lib"]
         j["config"] = prog.get("config", tgen.CONFIG)
     else:
         d = os.path.join(REPO, prog["dir"])
@@ -66,6 +68,13 @@ def make_job(jid, kind, prog, options, params, events=False):
 def gen_program(seed, idx, **kw):
     rng = Rng(seed * 1000003 + idx)
     return {"kind": "src", "name": "tgen-%d-%d" % (seed, idx), "text": tgen.generate(rng, **kw)}
+
+
+def gen_program_multi(seed, idx, **kw):
+    """Two packages: main and m/lib (so that pkg-filter has something to exclude)."""
+    rng = Rng(seed * 1000003 + idx + 77)
+    return {"kind": "src", "name": "tgen2-%d-%d" % (seed, idx), "text": tgen.generate(rng, lib=True, **kw),
+            "lib": tgen.LIB, "config": tgen.CONFIG_MULTI}
 
 
 def corpus_program(name):
